@@ -332,6 +332,13 @@ def norm_block(stmts: list) -> list:
                         out.append(ast.copy_location(ast.Assign(targets=[ast.Name(id=na, ctx=ast.Store())], value=_ifexp(copy.deepcopy(s.test), va, vb)), s))
                     i += 1
                     continue
+            # ---- x = ... (earlier in this block) ; ... ; if c: x = A     ->   x = A if c else x   (SSA renaming then separates the versions)
+            if aa is not None and not s.orelse and out and _single_assign([out[-1]]) is not None and _single_assign([out[-1]])[0] != aa[0] \
+                    and any((_single_assign([o]) or ("",))[0] == aa[0] for o in out):
+                out.append(ast.copy_location(ast.Assign(targets=[ast.Name(id=aa[0], ctx=ast.Store())],
+                                                        value=_ifexp(s.test, aa[1], ast.Name(id=aa[0], ctx=ast.Load()))), s))
+                i += 1
+                continue
             # ---- x = B ; if c: x = A
             if aa is not None and not s.orelse and out:
                 prev = _single_assign([out[-1]])
@@ -417,6 +424,55 @@ def ssa_straightline(stmts: list, params: Set[str]) -> list:
     return out
 
 
+def _ssa_nested(block: list, whole: list, params: Set[str], counts: Dict[str, int]) -> list:
+    """SSA renaming inside a nested block for names that live entirely in it: every binding of the name in the function is a plain
+    top-level assignment of this block, the first occurrence in the block is a binding, and the name is not used outside the block"""
+    top_defs: Dict[str, int] = {}
+    for s in block:
+        a = _single_assign([s])
+        if a is not None:
+            top_defs[a[0]] = top_defs.get(a[0], 0) + 1
+    cands = {x for x, k in top_defs.items() if k >= 2 and counts.get(x, 0) == k and x not in params}
+    if not cands:
+        return block
+    inside = sum(1 for s in block for n in ast.walk(s) if isinstance(n, ast.Name) and n.id in cands)
+    total = sum(1 for s in whole for n in ast.walk(s) if isinstance(n, ast.Name) and n.id in cands)
+    if inside != total:
+        # some candidate is used outside the block: keep only those that are not
+        keepers = set()
+        for x in cands:
+            i_ = sum(1 for s in block for n in ast.walk(s) if isinstance(n, ast.Name) and n.id == x)
+            t_ = sum(1 for s in whole for n in ast.walk(s) if isinstance(n, ast.Name) and n.id == x)
+            if i_ == t_:
+                keepers.add(x)
+        cands = keepers
+    ok = set()
+    for x in cands:
+        for s in block:
+            a = _single_assign([s])
+            if a is not None and a[0] == x and x not in names_loaded(a[1]):
+                ok.add(x)
+                break
+            if x in names_loaded(s) or x in names_stored(s):
+                break
+    if not ok:
+        return block
+    version: Dict[str, int] = {}
+    out = []
+    for s in block:
+        cur = {x: ast.Name(id=f"{x}__{version[x]}", ctx=ast.Load()) for x in ok if x in version}
+        a = _single_assign([s])
+        if a is not None and a[0] in ok:
+            val = subst(a[1], cur)
+            version[a[0]] = version.get(a[0], 0) + 1
+            newname = f"{a[0]}__{version[a[0]]}"
+            counts[newname] = 1
+            out.append(ast.copy_location(ast.Assign(targets=[ast.Name(id=newname, ctx=ast.Store())], value=val), s))
+        else:
+            out.append(subst(s, cur) if cur else s)
+    return out
+
+
 def forward_subst(stmts: list, keep: Set[str], params: Set[str], _top=True, _counts=None) -> list:
     """N4 on the top-level statement list of a function: drop `x = e` when x is bound exactly once in the whole function (not a
     parameter, not in `keep`) and substitute e for x in what follows."""
@@ -467,6 +523,7 @@ def forward_subst(stmts: list, keep: Set[str], params: Set[str], _top=True, _cou
                 for f in ("body", "orelse", "finalbody"):
                     b = getattr(s, f, None)
                     if isinstance(b, list) and b and isinstance(b[0], ast.stmt) and not isinstance(s, (ast.FunctionDef, ast.AsyncFunctionDef, ast.ClassDef)):
+                        b = _ssa_nested(b, out, params, counts)
                         nb = forward_subst(b, keep, params, _top=False, _counts=counts)
                         setattr(s, f, nb or [ast.Pass()])
                         rec(getattr(s, f))
@@ -604,6 +661,12 @@ class Normalizer:
             fn.body = ssa_straightline(fn.body, params)
             fn.body = forward_subst(fn.body, set(keep), params)
             fn.body = norm_block(fn.body) or [ast.Pass()]
+            for sub in [x for x in fn.body if isinstance(x, ast.FunctionDef)]:
+                sp = {a.arg for a in sub.args.posonlyargs + sub.args.args + sub.args.kwonlyargs}
+                sub.body = norm_block(body_of(sub))
+                sub.body = ssa_straightline(sub.body, sp)
+                sub.body = forward_subst(sub.body, set(keep), sp | params)
+                sub.body = norm_block(sub.body) or [ast.Pass()]
             fn = _ExprNorm().visit(fn)
             if ast.dump(fn) == before:
                 break
